@@ -351,7 +351,13 @@ func genC15(g *Gen, tier string, w *bufio.Writer) {
 		s = mk(cols, etMode, true)
 		fmt.Fprintf(w, "limit %d | %s\n", g.Intn(n+3), srcTokens(g, s, true))
 		// event time buffer (mode 1: event time is a function of the row; mode 2: arbitrary)
-		s = mk(cols, 1+g.Intn(2), true)
+		etbMode := func() int {
+			if g.Chance(1, 6) {
+				return 2
+			}
+			return 1
+		}
+		s = mk(cols, etbMode(), true)
 		fmt.Fprintf(w, "etbuf | %s\n", srcTokens(g, s, true))
 		// simple group by
 		s = mk(cols, etMode, true)
@@ -362,7 +368,7 @@ func genC15(g *Gen, tier string, w *bufio.Writer) {
 		fmt.Fprintf(w, "sgroup %s | %s\n", gcfg, srcTokens(g, s, true))
 		// custom trigger group by with the end-of-stream trigger; sometimes keyed by an event-time column
 		if g.Bool() {
-			s = mk([]int{4, 0}, 1+g.Intn(2), true)
+			s = mk([]int{4, 0}, etbMode(), true)
 			na := 1 + g.Intn(2)
 			cfg := fmt.Sprintf("0 1 V0.0 %d", na)
 			for j := 0; j < na; j++ {
@@ -370,7 +376,7 @@ func genC15(g *Gen, tier string, w *bufio.Writer) {
 			}
 			fmt.Fprintf(w, "cgroup %s | %s\n", cfg, srcTokens(g, s, true))
 		} else {
-			s = mk(cols, g.Intn(3), true)
+			s = mk(cols, Pick(g, []int{0, 1, 1, 1, 2}), true)
 			fmt.Fprintf(w, "cgroup -1 %s | %s\n", genGroupCfg(g, []string{"V0.0", "V0.1"}), srcTokens(g, s, true))
 		}
 		// lookup join: joined side = Filter over a scripted source, predicate sees the source record at level 1
